@@ -5,6 +5,7 @@ INVARIANT BandwidthIsSumInv
 INVARIANT ServedHasPathPropertiesInv
 INVARIANT NoPathOnlyReasonInv
 INVARIANT BlockedCarriesReasonInv
+INVARIANT ReasonIsFirstRaisedInv
 INVARIANT RouteHopByHopInv
 INVARIANT LabelsEqualNMInv
 INVARIANT NoLabelWhenBlockedInv
